@@ -6,3 +6,6 @@ package gocql
 // verifYield is a no-op unless the package is built with the "verif" tag
 // (deterministic-simulation yield points, see verif_on.go).
 func verifYield(point string, c *Conn, stream int) {}
+
+// verifOrderHosts is a no-op without the verif tag.
+func verifOrderHosts(hosts []*HostInfo) {}
